@@ -396,4 +396,5 @@ def opt_shards(tier):
 
 
 def replay(case):
-    return check_case(case)[0]
+    with core.istate(case.get("seq", "") + case["kind"]):       # the same interpreter state as in the exploration
+        return check_case(case)[0]
